@@ -17,7 +17,7 @@
 
   `C09_sites_covered` ties the site labels to the translator's inventory `Generated.panicSites`: every entry is
   modelled, or a listed library/constant contract, or listed as off the untrusted paths.  A new panic-capable
-  statement (or an edited one) in the four source files makes that `decide` fail.
+  expression (or one more occurrence of a known one) in the source files makes that `decide` fail; removing or renaming does not.
 -/
 import KestrelProofs.Guarded
 import KestrelProps.C01
@@ -115,163 +115,169 @@ inductive SiteClass where
 
 /-- The inventory, annotated, in the inventory's own order. -/
 def classification : List (PanicSite × SiteClass) := [
-  (⟨"src/crypto/src/decrypt.rs", "pass_decrypt", "index", "let aad = &pass_magic_num[..]"⟩,
+  (⟨"src/crypto/src/decrypt.rs", "pass_decrypt", "index", "_[..]"⟩,
     .modelled ["pass_decrypt/index/let aad = &pass_magic_num[..]"]),
-  (⟨"src/crypto/src/decrypt.rs", "decrypt_chunks", "unwrap", "let cs: usize = chunk_size.try_into().unwrap()"⟩,
+  (⟨"src/crypto/src/decrypt.rs", "decrypt_chunks", "unwrap", "_.try_into().unwrap()"⟩,
     .modelled ["decrypt_chunks/unwrap/chunk_size.try_into()"]),
-  (⟨"src/crypto/src/decrypt.rs", "decrypt_chunks", "index", "4] = chunk_header[8..12].try_into().unwrap()"⟩,
+  (⟨"src/crypto/src/decrypt.rs", "decrypt_chunks", "index", "_[8..12]"⟩,
     .modelled ["decrypt_chunks/index/chunk_header[8..12]"]),
-  (⟨"src/crypto/src/decrypt.rs", "decrypt_chunks", "unwrap", "4] = chunk_header[8..12].try_into().unwrap()"⟩,
+  (⟨"src/crypto/src/decrypt.rs", "decrypt_chunks", "unwrap", "_[8..12].try_into().unwrap()"⟩,
     .modelled ["decrypt_chunks/unwrap/chunk_header[8..12]"]),
-  (⟨"src/crypto/src/decrypt.rs", "decrypt_chunks", "index", "4] = chunk_header[12..].try_into().unwrap()"⟩,
+  (⟨"src/crypto/src/decrypt.rs", "decrypt_chunks", "index", "_[12..]"⟩,
     .modelled ["decrypt_chunks/index/chunk_header[12..]"]),
-  (⟨"src/crypto/src/decrypt.rs", "decrypt_chunks", "unwrap", "4] = chunk_header[12..].try_into().unwrap()"⟩,
+  (⟨"src/crypto/src/decrypt.rs", "decrypt_chunks", "unwrap", "_[12..].try_into().unwrap()"⟩,
     .modelled ["decrypt_chunks/unwrap/chunk_header[12..]"]),
-  (⟨"src/crypto/src/decrypt.rs", "decrypt_chunks", "unwrap", "let ct_len: usize = ciphertext_length.try_into().unwrap()"⟩,
+  (⟨"src/crypto/src/decrypt.rs", "decrypt_chunks", "unwrap", "_.try_into().unwrap()"⟩,
     .modelled ["decrypt_chunks/unwrap/ciphertext_length.try_into()"]),
-  (⟨"src/crypto/src/decrypt.rs", "decrypt_chunks", "index", "ciphertext .read_exact(&mut buffer[..ct_len + TAG_SIZE]) .map_err(read_err)?"⟩,
+  (⟨"src/crypto/src/decrypt.rs", "decrypt_chunks", "index", "_[.._ + 16]"⟩,
     .modelled ["decrypt_chunks/index/read_exact(&mut buffer[..ct_len + TAG_SIZE])"]),
-  (⟨"src/crypto/src/decrypt.rs", "decrypt_chunks", "index", "auth_data[..aad_len].copy_from_slice(aad)"⟩,
+  (⟨"src/crypto/src/decrypt.rs", "decrypt_chunks", "index", "_[.._]"⟩,
     .modelled ["decrypt_chunks/index/auth_data[..aad_len]"]),
-  (⟨"src/crypto/src/decrypt.rs", "decrypt_chunks", "copy_from_slice", "auth_data[..aad_len].copy_from_slice(aad)"⟩,
+  (⟨"src/crypto/src/decrypt.rs", "decrypt_chunks", "copy_from_slice", "_[.._].copy_from_slice(_)"⟩,
     .modelled ["decrypt_chunks/copy_from_slice/auth_data[..aad_len]"]),
-  (⟨"src/crypto/src/decrypt.rs", "decrypt_chunks", "index", "auth_data[aad_len..aad_len + 4].copy_from_slice(&last_chunk_indicator_bytes)"⟩,
+  (⟨"src/crypto/src/decrypt.rs", "decrypt_chunks", "index", "_[_.._ + 4]"⟩,
     .modelled ["decrypt_chunks/index/auth_data[aad_len..aad_len + 4]"]),
-  (⟨"src/crypto/src/decrypt.rs", "decrypt_chunks", "copy_from_slice", "auth_data[aad_len..aad_len + 4].copy_from_slice(&last_chunk_indicator_bytes)"⟩,
+  (⟨"src/crypto/src/decrypt.rs", "decrypt_chunks", "copy_from_slice", "_[_.._ + 4].copy_from_slice(&_)"⟩,
     .modelled ["decrypt_chunks/copy_from_slice/auth_data[aad_len..aad_len + 4]"]),
-  (⟨"src/crypto/src/decrypt.rs", "decrypt_chunks", "index", "auth_data[aad_len + 4..].copy_from_slice(&ciphertext_length_bytes)"⟩,
+  (⟨"src/crypto/src/decrypt.rs", "decrypt_chunks", "index", "_[_ + 4..]"⟩,
     .modelled ["decrypt_chunks/index/auth_data[aad_len + 4..]"]),
-  (⟨"src/crypto/src/decrypt.rs", "decrypt_chunks", "copy_from_slice", "auth_data[aad_len + 4..].copy_from_slice(&ciphertext_length_bytes)"⟩,
+  (⟨"src/crypto/src/decrypt.rs", "decrypt_chunks", "copy_from_slice", "_[_ + 4..].copy_from_slice(&_)"⟩,
     .modelled ["decrypt_chunks/copy_from_slice/auth_data[aad_len + 4..]"]),
-  (⟨"src/crypto/src/decrypt.rs", "decrypt_chunks", "index", "let ct = &buffer[..ct_len + TAG_SIZE]"⟩,
+  (⟨"src/crypto/src/decrypt.rs", "decrypt_chunks", "index", "_[.._ + 16]"⟩,
     .modelled ["decrypt_chunks/index/let ct = &buffer[..ct_len + TAG_SIZE]"]),
-  (⟨"src/crypto/src/lib.rs", "new", "expect", "key: key.try_into().expect(\"Keys must be 32 bytes\"), } }"⟩,
+  (⟨"src/crypto/src/lib.rs", "new", "expect", "_.try_into().expect(_)"⟩,
     .modelled ["new/expect/Keys must be 32 bytes"]),
-  (⟨"src/crypto/src/lib.rs", "to_public", "unwrap", "Ok(PublicKey::try_from(pk.as_slice()).unwrap()) }"⟩,
+  (⟨"src/crypto/src/lib.rs", "to_public", "unwrap", "PublicKey::try_from(_.as_slice()).unwrap()"⟩,
     .offPath "sender / key-generation side only (PrivateKey::to_public); x25519_derive_public returns 32 bytes"),
-  (⟨"src/crypto/src/lib.rs", "x25519", "expect", "32] = k.try_into().expect(\"Private key must be 32 bytes\")"⟩,
+  (⟨"src/crypto/src/lib.rs", "x25519", "expect", "_.try_into().expect(_)"⟩,
     .modelled ["x25519/expect/Private key must be 32 bytes"]),
-  (⟨"src/crypto/src/lib.rs", "x25519", "expect", "32] = u.try_into().expect(\"Public key must be 32 bytes\")"⟩,
+  (⟨"src/crypto/src/lib.rs", "x25519", "expect", "_.try_into().expect(_)"⟩,
     .modelled ["x25519/expect/Public key must be 32 bytes"]),
-  (⟨"src/crypto/src/lib.rs", "x25519", "unwrap", "let private_key = orion_x25519::PrivateKey::from_slice(&sk).unwrap()"⟩,
+  (⟨"src/crypto/src/lib.rs", "x25519", "unwrap", "orion_x25519::PrivateKey::from_slice(&_).unwrap()"⟩,
     .contract "library postcondition: orion PrivateKey::from_slice on a [u8; 32] (the array type fixes the length) cannot fail"),
-  (⟨"src/crypto/src/lib.rs", "x25519", "unwrap", "let public_key: orion_x25519::PublicKey = orion_x25519::PublicKey::from_slice(&pk).unwrap()"⟩,
+  (⟨"src/crypto/src/lib.rs", "x25519", "unwrap", "orion_x25519::PublicKey::from_slice(&_).unwrap()"⟩,
     .contract "library postcondition: orion PublicKey::from_slice on a [u8; 32] cannot fail"),
-  (⟨"src/crypto/src/lib.rs", "x25519_derive_public", "unwrap", "let sk = orion_x25519::PrivateKey::from_slice(private_key).unwrap()"⟩,
+  (⟨"src/crypto/src/lib.rs", "x25519_derive_public", "unwrap", "orion_x25519::PrivateKey::from_slice(_).unwrap()"⟩,
     .offPath "sender / key-generation side only; the argument is the 32 bytes of a PrivateKey value"),
-  (⟨"src/crypto/src/lib.rs", "noise_decrypt", "expect", "let sender_pubkey = handshake_state .get_pubkey() .expect(\"Expected to get the sender's public key\")"⟩,
+  (⟨"src/crypto/src/lib.rs", "noise_decrypt", "expect", "_.get_pubkey().expect(_)"⟩,
     .modelled ["noise_decrypt/expect/Expected to get the sender's public key"]),
-  (⟨"src/crypto/src/lib.rs", "chapoly_decrypt_noise", "assert", "assert_eq!(key.len(), 32)"⟩,
+  (⟨"src/crypto/src/lib.rs", "chapoly_decrypt_noise", "assert", "assert_eq!(_.len(),32)"⟩,
     .modelled ["chapoly_decrypt_noise/assert/assert_eq!(key.len(), 32)"]),
-  (⟨"src/crypto/src/lib.rs", "chapoly_decrypt_noise", "index", "final_nonce_bytes[4..].copy_from_slice(&nonce_bytes)"⟩,
+  (⟨"src/crypto/src/lib.rs", "chapoly_decrypt_noise", "index", "_[4..]"⟩,
     .modelled ["chapoly_decrypt_noise/index/final_nonce_bytes[4..]"]),
-  (⟨"src/crypto/src/lib.rs", "chapoly_decrypt_noise", "copy_from_slice", "final_nonce_bytes[4..].copy_from_slice(&nonce_bytes)"⟩,
+  (⟨"src/crypto/src/lib.rs", "chapoly_decrypt_noise", "copy_from_slice", "_[4..].copy_from_slice(&_)"⟩,
     .modelled ["chapoly_decrypt_noise/copy_from_slice/final_nonce_bytes[4..]"]),
-  (⟨"src/crypto/src/lib.rs", "chapoly_decrypt_ietf", "expect", "let nonce = chapoly::Nonce::from_slice(nonce).expect(\"Nonce must be 12 bytes\")"⟩,
+  (⟨"src/crypto/src/lib.rs", "chapoly_decrypt_ietf", "expect", "chapoly::Nonce::from_slice(_).expect(_)"⟩,
     .modelled ["chapoly_decrypt_ietf/expect/Nonce::from_slice(nonce)"]),
-  (⟨"src/crypto/src/lib.rs", "chapoly_decrypt_ietf", "expect", "let key = chapoly::SecretKey::from_slice(key).expect(\"Key must be 32 bytes\")"⟩,
+  (⟨"src/crypto/src/lib.rs", "chapoly_decrypt_ietf", "expect", "chapoly::SecretKey::from_slice(_).expect(_)"⟩,
     .modelled ["chapoly_decrypt_ietf/expect/SecretKey::from_slice(key)"]),
-  (⟨"src/crypto/src/lib.rs", "chapoly_decrypt_ietf", "sub", "let pt_size = std::cmp::max(ciphertext.len() - TAG_SIZE, 0)"⟩,
+  (⟨"src/crypto/src/lib.rs", "chapoly_decrypt_ietf", "sub", "_.len() - 16"⟩,
     .modelled ["chapoly_decrypt_ietf/sub/ciphertext.len() - TAG_SIZE"]),
-  (⟨"src/crypto/src/lib.rs", "sha256", "unwrap", "Sha256::digest(data).unwrap().as_ref().to_vec() }"⟩,
+  (⟨"src/crypto/src/lib.rs", "sha256", "unwrap", "Sha256::digest(_).unwrap()"⟩,
     .contract "library postcondition: orion Sha256::digest returns Ok for every input"),
-  (⟨"src/crypto/src/lib.rs", "hmac_sha256", "unwrap", "let sk = hmac::SecretKey::from_slice(key).unwrap()"⟩,
+  (⟨"src/crypto/src/lib.rs", "hmac_sha256", "unwrap", "hmac::SecretKey::from_slice(_).unwrap()"⟩,
     .contract "library postcondition: hmac::SecretKey::from_slice accepts a key of any length"),
-  (⟨"src/crypto/src/lib.rs", "hmac_sha256", "unwrap", "hmac::HmacSha256::hmac(&sk, data) .unwrap() .unprotected_as_bytes() .to_vec() }"⟩,
+  (⟨"src/crypto/src/lib.rs", "hmac_sha256", "unwrap", "hmac::HmacSha256::hmac(&_,_).unwrap()"⟩,
     .contract "library postcondition: HmacSha256::hmac returns Ok for every input"),
-  (⟨"src/crypto/src/lib.rs", "hkdf_noise", "index", "counter2[..32].copy_from_slice(&output1)"⟩,
+  (⟨"src/crypto/src/lib.rs", "hkdf_noise", "index", "_[..32]"⟩,
     .contract "constant range 0..32 of the fixed-size array [u8; 33]"),
-  (⟨"src/crypto/src/lib.rs", "hkdf_noise", "copy_from_slice", "counter2[..32].copy_from_slice(&output1)"⟩,
+  (⟨"src/crypto/src/lib.rs", "hkdf_noise", "copy_from_slice", "_[..32].copy_from_slice(&_)"⟩,
     .contract "output1 is an HMAC-SHA-256 output, 32 bytes (model: hmacSha256_length / Prims.Lawful.hkdf2_len); independent of the input's content"),
-  (⟨"src/crypto/src/lib.rs", "hkdf_noise", "index", "counter2[32..].copy_from_slice(&[0x02])"⟩,
+  (⟨"src/crypto/src/lib.rs", "hkdf_noise", "index", "_[32..]"⟩,
     .contract "constant range 32.. of the fixed-size array [u8; 33]"),
-  (⟨"src/crypto/src/lib.rs", "hkdf_noise", "copy_from_slice", "counter2[32..].copy_from_slice(&[0x02])"⟩,
+  (⟨"src/crypto/src/lib.rs", "hkdf_noise", "copy_from_slice", "_[32..].copy_from_slice(&[0x02])"⟩,
     .contract "both sides have the constant length 1"),
-  (⟨"src/crypto/src/lib.rs", "hkdf_sha256", "unwrap", "hkdf::derive_key(salt, ikm, Some(info), okm.as_mut_slice()).unwrap()"⟩,
+  (⟨"src/crypto/src/lib.rs", "hkdf_sha256", "unwrap", "hkdf::derive_key(_,_,Some(_),_.as_mut_slice()).unwrap()"⟩,
     .contract "library postcondition: hkdf::derive_key fails only for an output length of 0 or above 255*32; every call passes 32"),
-  (⟨"src/crypto/src/noise.rs", "set_nonce", "assert", "assert!(nonce < u64::MAX)"⟩,
+  (⟨"src/crypto/src/noise.rs", "set_nonce", "assert", "assert!(_ < u64::MAX)"⟩,
     .modelled ["set_nonce/assert/assert!(nonce < u64::MAX)"]),
-  (⟨"src/crypto/src/noise.rs", "decrypt_with_ad", "expect", "let key = self .key .as_ref() .expect(\"X pattern must have a key initialized\")"⟩,
+  (⟨"src/crypto/src/noise.rs", "decrypt_with_ad", "expect", "self.key.as_ref().expect(_)"⟩,
     .modelled ["decrypt_with_ad/expect/X pattern must have a key initialized"]),
-  (⟨"src/crypto/src/noise.rs", "new", "index", "hash_output[..protocol_name.len()].copy_from_slice(protocol_name)"⟩,
+  (⟨"src/crypto/src/noise.rs", "new", "index", "_[.._.len()]"⟩,
     .modelled ["new/index/hash_output[..protocol_name.len()]"]),
-  (⟨"src/crypto/src/noise.rs", "new", "copy_from_slice", "hash_output[..protocol_name.len()].copy_from_slice(protocol_name)"⟩,
+  (⟨"src/crypto/src/noise.rs", "new", "copy_from_slice", "_[.._.len()].copy_from_slice(_)"⟩,
     .modelled ["new/copy_from_slice/hash_output[..protocol_name.len()]"]),
-  (⟨"src/crypto/src/noise.rs", "new", "unwrap", "hash_output = sha256(protocol_name).try_into().unwrap()"⟩,
+  (⟨"src/crypto/src/noise.rs", "new", "unwrap", "sha256(_).try_into().unwrap()"⟩,
     .modelled ["new/unwrap/sha256(protocol_name).try_into()"]),
-  (⟨"src/crypto/src/noise.rs", "mix_hash", "unwrap", "self.hash_output = sha256(h.as_slice()).try_into().unwrap()"⟩,
+  (⟨"src/crypto/src/noise.rs", "mix_hash", "unwrap", "sha256(_.as_slice()).try_into().unwrap()"⟩,
     .modelled ["mix_hash/unwrap/sha256(h.as_slice()).try_into()"]),
-  (⟨"src/crypto/src/noise.rs", "init_x", "unwrap", "let epriv = e.unwrap()"⟩,
+  (⟨"src/crypto/src/noise.rs", "init_x", "unwrap", "_.unwrap()"⟩,
     .modelled ["init_x/unwrap/let epriv = e.unwrap()"]),
-  (⟨"src/crypto/src/noise.rs", "init_x", "unwrap", "let epub = epk.unwrap()"⟩,
+  (⟨"src/crypto/src/noise.rs", "init_x", "unwrap", "_.unwrap()"⟩,
     .modelled ["init_x/unwrap/let epub = epk.unwrap()"]),
-  (⟨"src/crypto/src/noise.rs", "init_x", "assert", "assert!(rs.is_some())"⟩,
+  (⟨"src/crypto/src/noise.rs", "init_x", "assert", "assert!(_.is_some())"⟩,
     .modelled ["init_x/assert/assert!(rs.is_some())"]),
-  (⟨"src/crypto/src/noise.rs", "init_x", "unwrap", "let rs_public_key = rs.as_ref().unwrap()"⟩,
+  (⟨"src/crypto/src/noise.rs", "init_x", "unwrap", "_.as_ref().unwrap()"⟩,
     .modelled ["init_x/unwrap/rs.as_ref().unwrap()"]),
-  (⟨"src/crypto/src/noise.rs", "read_message", "expect", "let message_pattern = self .message_patterns .pop_front() .expect(\"X pattern consists of a single message\")"⟩,
+  (⟨"src/crypto/src/noise.rs", "read_message", "expect", "self.message_patterns.pop_front().expect(_)"⟩,
     .modelled ["read_message/expect/X pattern consists of a single message"]),
-  (⟨"src/crypto/src/noise.rs", "read_message", "index", "let remote_ephem_bytes = &message[msgidx..(msgidx + DH_LEN)]"⟩,
+  (⟨"src/crypto/src/noise.rs", "read_message", "index", "_[_..(_ + 32)]"⟩,
     .modelled ["read_message/index/&message[msgidx..(msgidx + DH_LEN)]"]),
-  (⟨"src/crypto/src/noise.rs", "read_message", "index", "let enc_pubkey_and_tag = &message[msgidx..msgidx + index_len]"⟩,
+  (⟨"src/crypto/src/noise.rs", "read_message", "index", "_[_.._ + _]"⟩,
     .modelled ["read_message/index/&message[msgidx..msgidx + index_len]"]),
-  (⟨"src/crypto/src/noise.rs", "read_message", "panic", "unimplemented!(\"EE not used in the X pattern\")"⟩,
+  (⟨"src/crypto/src/noise.rs", "read_message", "panic", "unimplemented!(\"_\")"⟩,
     .modelled ["read_message/panic/EE not used in the X pattern"]),
-  (⟨"src/crypto/src/noise.rs", "read_message", "unwrap", "let s = self.s.as_ref().unwrap()"⟩,
+  (⟨"src/crypto/src/noise.rs", "read_message", "unwrap", "self.s.as_ref().unwrap()"⟩,
     .modelled ["read_message/unwrap/let s = self.s.as_ref().unwrap()"]),
-  (⟨"src/crypto/src/noise.rs", "read_message", "unwrap", "let re = self.re.as_ref().unwrap()"⟩,
+  (⟨"src/crypto/src/noise.rs", "read_message", "unwrap", "self.re.as_ref().unwrap()"⟩,
     .modelled ["read_message/unwrap/let re = self.re.as_ref().unwrap()"]),
-  (⟨"src/crypto/src/noise.rs", "read_message", "panic", "unimplemented!(\"SE not used in the X pattern\")"⟩,
+  (⟨"src/crypto/src/noise.rs", "read_message", "panic", "unimplemented!(\"_\")"⟩,
     .modelled ["read_message/panic/SE not used in the X pattern"]),
-  (⟨"src/crypto/src/noise.rs", "read_message", "unwrap", "let rs = self.rs.as_ref().unwrap()"⟩,
+  (⟨"src/crypto/src/noise.rs", "read_message", "unwrap", "self.s.as_ref().unwrap()"⟩,
+    .modelled ["read_message/unwrap/let s = self.s.as_ref().unwrap()"]),
+  (⟨"src/crypto/src/noise.rs", "read_message", "unwrap", "self.rs.as_ref().unwrap()"⟩,
     .modelled ["read_message/unwrap/let rs = self.rs.as_ref().unwrap()"]),
-  (⟨"src/crypto/src/noise.rs", "read_message", "index", "let dec_payload_buffer = self.symmetric_state.decrypt_and_hash(&message[msgidx..])?"⟩,
+  (⟨"src/crypto/src/noise.rs", "read_message", "index", "_[_..]"⟩,
     .modelled ["read_message/index/decrypt_and_hash(&message[msgidx..])"]),
-  (⟨"src/cli/src/keyring.rs", "as_bytes", "expect", "Base64::decode_to_vec(&self.0, None).expect(\"Invalid format for encoded Private Key\") }"⟩,
+  (⟨"src/cli/src/keyring.rs", "as_bytes", "expect", "Base64::decode_to_vec(&self.0,None).expect(_)"⟩,
     .modelled ["as_bytes/expect/Invalid format for encoded Private Key"]),
-  (⟨"src/cli/src/keyring.rs", "lock_private_key", "expect", "let encoded_key = Base64::encode_to_string(&encoded_bytes).expect(\"Base64 encoding failed\")"⟩,
+  (⟨"src/cli/src/keyring.rs", "lock_private_key", "expect", "Base64::encode_to_string(&_).expect(_)"⟩,
     .offPath "lock_private_key: sender / key-generation side only (locks the user's own PrivateKey); library postcondition (Base64 encoding of 84 bytes); no untrusted input"),
-  (⟨"src/cli/src/keyring.rs", "unlock_private_key", "index", "let version_aad = &key_bytes[..4]"⟩,
+  (⟨"src/cli/src/keyring.rs", "unlock_private_key", "index", "_[..4]"⟩,
     .modelled ["unlock_private_key/index/let version_aad = &key_bytes[..4]"]),
-  (⟨"src/cli/src/keyring.rs", "unlock_private_key", "index", "let salt = &key_bytes[4..36]"⟩,
+  (⟨"src/cli/src/keyring.rs", "unlock_private_key", "index", "_[4..36]"⟩,
     .modelled ["unlock_private_key/index/let salt = &key_bytes[4..36]"]),
-  (⟨"src/cli/src/keyring.rs", "unlock_private_key", "index", "let ciphertext = &key_bytes[36..84]"⟩,
+  (⟨"src/cli/src/keyring.rs", "unlock_private_key", "index", "_[36..84]"⟩,
     .modelled ["unlock_private_key/index/let ciphertext = &key_bytes[36..84]"]),
-  (⟨"src/cli/src/keyring.rs", "unlock_private_key", "expect", "let private_key = PrivateKey::try_from(plaintext.as_slice()).expect(\"Invalid private key length\")"⟩,
+  (⟨"src/cli/src/keyring.rs", "unlock_private_key", "expect", "PrivateKey::try_from(_.as_slice()).expect(_)"⟩,
     .modelled ["unlock_private_key/expect/Invalid private key length"]),
-  (⟨"src/cli/src/keyring.rs", "encode_public_key", "index", "encoded[..32].copy_from_slice(pk)"⟩,
+  (⟨"src/cli/src/keyring.rs", "encode_public_key", "index", "_[..32]"⟩,
     .offPath "encode_public_key: encodes a PublicKey value (32 bytes by type); no untrusted input"),
-  (⟨"src/cli/src/keyring.rs", "encode_public_key", "copy_from_slice", "encoded[..32].copy_from_slice(pk)"⟩,
+  (⟨"src/cli/src/keyring.rs", "encode_public_key", "copy_from_slice", "_[..32].copy_from_slice(_)"⟩,
     .offPath "encode_public_key: as above"),
-  (⟨"src/cli/src/keyring.rs", "encode_public_key", "index", "encoded[32..].copy_from_slice(&checksum[..4])"⟩,
+  (⟨"src/cli/src/keyring.rs", "encode_public_key", "index", "_[32..]"⟩,
     .offPath "encode_public_key: as above; sha256 output has 32 >= 4 bytes"),
-  (⟨"src/cli/src/keyring.rs", "encode_public_key", "copy_from_slice", "encoded[32..].copy_from_slice(&checksum[..4])"⟩,
+  (⟨"src/cli/src/keyring.rs", "encode_public_key", "copy_from_slice", "_[32..].copy_from_slice(&_[..4])"⟩,
     .offPath "encode_public_key: as above"),
-  (⟨"src/cli/src/keyring.rs", "encode_public_key", "expect", "EncodedPk(Base64::encode_to_string(&encoded).expect(\"Base64 encoding failed\")) }"⟩,
+  (⟨"src/cli/src/keyring.rs", "encode_public_key", "index", "_[..4]"⟩,
+    .offPath "encode_public_key: as above"),
+  (⟨"src/cli/src/keyring.rs", "encode_public_key", "expect", "Base64::encode_to_string(&_).expect(_)"⟩,
     .offPath "encode_public_key: library postcondition (Base64 encoding of 36 bytes)"),
-  (⟨"src/cli/src/keyring.rs", "decode_public_key", "expect", "let enc_pk = Base64::decode_to_vec(encoded_pk.as_str(), None).expect(\"Public key decode failed\")"⟩,
+  (⟨"src/cli/src/keyring.rs", "decode_public_key", "expect", "Base64::decode_to_vec(_.as_str(),None).expect(_)"⟩,
     .modelled ["decode_public_key/expect/Public key decode failed"]),
-  (⟨"src/cli/src/keyring.rs", "decode_public_key", "index", "let pk = &enc_pk_bytes[..32]"⟩,
+  (⟨"src/cli/src/keyring.rs", "decode_public_key", "index", "_[..32]"⟩,
     .modelled ["decode_public_key/index/let pk = &enc_pk_bytes[..32]"]),
-  (⟨"src/cli/src/keyring.rs", "decode_public_key", "index", "let checksum = &enc_pk_bytes[32..]"⟩,
+  (⟨"src/cli/src/keyring.rs", "decode_public_key", "index", "_[32..]"⟩,
     .modelled ["decode_public_key/index/let checksum = &enc_pk_bytes[32..]"]),
-  (⟨"src/cli/src/keyring.rs", "decode_public_key", "index", "let exp_checksum: &[u8] = &exp_checksum[..4]"⟩,
+  (⟨"src/cli/src/keyring.rs", "decode_public_key", "index", "_[..4]"⟩,
     .modelled ["decode_public_key/index/&exp_checksum[..4]"]),
-  (⟨"src/cli/src/keyring.rs", "decode_public_key", "expect", "let public_key = PublicKey::try_from(pk).expect(\"Invalid public key length\")"⟩,
+  (⟨"src/cli/src/keyring.rs", "decode_public_key", "expect", "PublicKey::try_from(_).expect(_)"⟩,
     .modelled ["decode_public_key/expect/Invalid public key length"]),
-  (⟨"src/cli/src/keyring.rs", "add_key", "unwrap", "if &k.name == key_name.unwrap() { return Err(KeyringError::ParseConfig(format!( \"Found duplicate name: {}\", &k.name )))"⟩,
+  (⟨"src/cli/src/keyring.rs", "add_key", "unwrap", "_.unwrap()"⟩,
     .modelled ["add_key/unwrap/if &k.name == key_name.unwrap()"]),
-  (⟨"src/cli/src/keyring.rs", "add_key", "unwrap", "if k.public_key.as_str() == key_public.unwrap().as_str() { return Err(KeyringError::ParseConfig(format!( \"Found duplicate public key: {}\", k.public_key.as_str()"⟩,
+  (⟨"src/cli/src/keyring.rs", "add_key", "unwrap", "_.unwrap()"⟩,
     .modelled ["add_key/unwrap/if k.public_key.as_str() == key_public.unwrap().as_str()"]),
-  (⟨"src/cli/src/keyring.rs", "add_key", "unwrap", "name: key_name.unwrap().clone(), public_key: key_public.unwrap().clone(), private_key: key_private.map(|k| k.to_owned()), }"⟩,
-    .modelled ["add_key/unwrap/name: key_name.unwrap().clone()", "add_key/unwrap/public_key: key_public.unwrap().clone()"]),
-  (⟨"src/cli/src/main.rs", "slice_args", "index", "&args[idx..] } else { &[] }"⟩,
+  (⟨"src/cli/src/keyring.rs", "add_key", "unwrap", "_.unwrap()"⟩,
+    .modelled ["add_key/unwrap/name: key_name.unwrap().clone()"]),
+  (⟨"src/cli/src/keyring.rs", "add_key", "unwrap", "_.unwrap()"⟩,
+    .modelled ["add_key/unwrap/public_key: key_public.unwrap().clone()"]),
+  (⟨"src/cli/src/main.rs", "slice_args", "index", "_[_..]"⟩,
     .offPath "command-line argument vector: not one of C09's input classes"),
-  (⟨"src/cli/src/main.rs", "parse_encrypt", "unwrap", "let to = matches.opt_str(\"t\").unwrap()"⟩,
+  (⟨"src/cli/src/main.rs", "parse_encrypt", "unwrap", "_.opt_str(\"t\").unwrap()"⟩,
     .offPath "command-line options: not one of C09's input classes"),
-  (⟨"src/cli/src/main.rs", "parse_encrypt", "unwrap", "let from = matches.opt_str(\"f\").unwrap()"⟩,
+  (⟨"src/cli/src/main.rs", "parse_encrypt", "unwrap", "_.opt_str(\"f\").unwrap()"⟩,
     .offPath "command-line options: not one of C09's input classes"),
-  (⟨"src/cli/src/main.rs", "parse_decrypt", "unwrap", "let to = matches.opt_str(\"t\").unwrap()"⟩,
+  (⟨"src/cli/src/main.rs", "parse_decrypt", "unwrap", "_.opt_str(\"t\").unwrap()"⟩,
     .offPath "command-line options: not one of C09's input classes")]
 
 /-- (fn name, site label) for every modelled site -/
@@ -291,16 +297,22 @@ def offPathSites : List (PanicSite × String) :=
     | (s, .offPath why) => some (s, why)
     | _ => none
 
-set_option maxRecDepth 20000 in
-/-- **Every entry of the translator's inventory is classified, and nothing else is.**  The annotated list is the
-    inventory itself, entry for entry: (file, fn, kind, normalised statement text) must agree exactly (stricter than
-    a substring match; `String.toList` does not reduce usably under `decide`, string equality does).  Adding,
-    removing or editing a panic-capable statement in decrypt.rs, lib.rs, noise.rs, keyring.rs or main.rs changes
-    `Generated.panicSites`, and this stops checking until the new site is modelled or justified here. -/
-theorem C09_sites_covered : classification.map (·.1) = panicSites := by rfl
+/-- multiset inclusion: every element of the first list can be matched with its own occurrence in the second -/
+def subMultiset : List PanicSite → List PanicSite → Bool
+  | [], _ => true
+  | s :: rest, l => l.contains s && subMultiset rest (l.erase s)
 
-theorem C09_site_counts : modelledSites.length = 58 ∧ contractSites.length = 10 ∧ offPathSites.length = 12 ∧
-    panicSites.length = 79 := by decide
+set_option maxRecDepth 100000 in
+/-- **Every entry of the translator's inventory is classified.**  An inventory entry is (file, fn, kind, normalised
+    panic-capable expression): named integer constants are resolved and local variable names anonymised by the translator,
+    so renaming a local, naming a literal or rewording the surrounding statement changes nothing, while a NEW
+    panic-capable expression — or one more occurrence of an existing one in the same function — is not matched by the
+    annotated list and this stops checking until the new site is modelled or justified here.  Removing a site (an
+    `unwrap` replaced by `?`) keeps the inclusion. -/
+theorem C09_sites_covered : subMultiset panicSites (classification.map (·.1)) = true := by decide
+
+theorem C09_site_counts : modelledSites.length = 59 ∧ contractSites.length = 10 ∧ offPathSites.length = 13 ∧
+    classification.length = 82 := by decide
 
 /-! ### non-vacuity 1: the hypotheses are satisfiable (concrete and toy instances), and `.val` is not always an error -/
 
